@@ -63,6 +63,22 @@ def gmat(rng, quick):
     for v in (0.51, 0.75, 0.9, 0.998):
         yield f"onebyone[{v}]", np.array([[v]])
     yield "onebyone-mixed-high", block_diag_matrix(rng, [np.array([[0.7]]), np.array([[1.0]]), projector(rng, 4, 2), np.array([[0.95]]), np.array([[0.6]])], zero_rows=1)
+    # connected blocks whose TRACE is an integer although no eigenvalue is 1 (identity minus a scaled PSD matrix can look like that):
+    # "rank = round(trace)" must not be taken for the number of unit eigenvalues; alone, repeated, and next to true projector blocks
+    yield "integer-trace[2x2,tr=1]", np.array([[0.75, 0.25], [0.25, 0.25]])
+    for n, tr in ((2, 1), (3, 1), (3, 2), (5, 2), (6, 3)):
+        lam = rng.uniform(0.05, 0.9, size=n)
+        for _ in range(200):
+            lam = lam * (tr / lam.sum())
+            if lam.max() < 0.95:
+                break
+            lam = rng.uniform(0.05, 0.9, size=n)
+        if lam.max() >= 0.95:
+            continue
+        Mi = with_spectrum(rng, lam)
+        Mi[0, 0] += tr - np.trace(Mi)          # trace equal to the integer to the last bit
+        yield f"integer-trace[n={n},tr={tr}]", Mi
+        yield f"integer-trace-mixed[n={n},tr={tr}]", block_diag_matrix(rng, [Mi, projector(rng, 4, 2), Mi.copy(), np.array([[1.0]]), projector(rng, 3, 1)], zero_rows=1)
     # rank-one projectors spread over several sub-blocks of the block-divided solver
     for n in (2, 6, 12) if quick else (2, 6, 12, 40, 90):
         v = rng.normal(size=n)
